@@ -39,6 +39,13 @@ def main():
         out = ds.write_multiprocessing(feed_writer=feed, custom_arguments=[(p, d) for p, d in zip(a["plans"], a["delays"])],
                                        single_process=a["single"], consistency_check=False)
         res["returns"] = out
+        if a.get("plans2"):
+            # a second multi-writer call into the same dataset (splits that already hold writer directories)
+            if a.get("reopen"):
+                from sedpack.io import Dataset
+                ds = Dataset(root)
+            res["returns2"] = ds.write_multiprocessing(feed_writer=feed, custom_arguments=[(p, d) for p, d in zip(a["plans2"], a["delays2"])],
+                                                       single_process=a["single"], consistency_check=False)
     except Exception as e:  # noqa: BLE001
         res["error"] = f"{type(e).__name__}: {str(e)[:300]}"
     finally:
